@@ -53,6 +53,14 @@ func HarnessC05Free() {
 	src := symBytes("b", vParam("N"))
 	vAssume(refPure(src))
 	want := refRender(src)
+	switch vChoice("earlier-render", 3) {
+	case 1: // an earlier render of the same process that fails after it has produced text
+		_, ferr := EvaluateString("<s>{{ 1 }}</s>{{ undefinedName }}", nil)
+		vAssert(ferr != nil, "faulty-template-fails")
+	case 2: // an earlier successful render
+		_, ferr := EvaluateString("@each(v in [1, 2])<{{ v }}>@end", nil)
+		vAssert(ferr == nil, "earlier-template-renders")
+	}
 	out, err := EvaluateString(src, nil)
 	vCover("rendered")
 	vAssert(err == nil, "pure-text-renders-without-error")
